@@ -94,6 +94,7 @@ func runC33(c *Ctx) {
 		}
 		r.Check(same, "R-KEY-SAME", un+"|Upload", u.Pos(at[0].Pos()), "the uploaded key and the presigned/returned key are one value", "Upload writes to one key and signs/returns another")
 		seedfixC33(c, un, u, root(keys[0]), u.Pos(at[0].Pos()))
+		uploadKeepsNoState(c, un, u, up)
 		os := u.Origins(root(keys[0]), &OriginOpts{Into: true, MaxNodes: 1500})
 		random := []string{}
 		clock := []string{}
